@@ -1,7 +1,25 @@
-//! C18: correspondence + oracle runs (sub-commands `c18` / `c18-*`).
+//! C18: checksums.  Sub-commands `c18-ipv4`, `c18-udp`, `c18-tcp`, run with the cargo feature
+//! `compute_checksum` (run config `"features": ["compute_checksum"]`).  Generators, executor and
+//! oracle are shared with C08 (`c08.rs`, `c08_exec.rs`, `c08_ref.rs`): here the op mix adds
+//! crafted one's-complement sums, every single-bit and sampled double-bit corruption of emitted
+//! packets, the independent implementation's checksums (both zero representations) and
+//! accumulator op sequences.
+use super::c08::{run_proto, Mode};
+use super::c08_exec::CK;
 use hcommon::*;
 
 pub fn run(args: &Args) {
-    eprintln!("hcore: {} not implemented yet", args.prop);
-    std::process::exit(2);
+    if !CK {
+        eprintln!("hcore: {} needs the cargo feature compute_checksum (features: [\"compute_checksum\"] in the run config)", args.prop);
+        std::process::exit(2);
+    }
+    match args.prop.as_str() {
+        "c18-ipv4" => run_proto(args, "ipv4", Mode::C18),
+        "c18-udp" => run_proto(args, "udp", Mode::C18),
+        "c18-tcp" => run_proto(args, "tcp", Mode::C18),
+        p => {
+            eprintln!("hcore: unknown C18 sub-command {}", p);
+            std::process::exit(2);
+        }
+    }
 }
